@@ -512,7 +512,7 @@ def _install(T):
         n = I.as_index(n)
         seq = padded(a, n)
         nf = V.to_float(n)
-        return Arr.build(n, lambda m: V.Cx.of(I.dom.dtft(seq, n, V.s_div(-m, nf))) / nf, "complex")
+        return Arr.build(n, lambda m: V.Cx.of(I.dom.dtft(seq, n, -m, n)) / nf, "complex")
 
     def padded(a, n):
         s = a.snap()
@@ -536,7 +536,7 @@ def _install(T):
             seq = padded(a, n)
             nf = V.to_float(n)
             out_n = V.s_floordiv(n, 2) + 1 if half else n
-            return Arr.build(out_n, lambda k: V.Cx.of(d.dtft(seq, n, V.s_div(k, nf))), "complex")
+            return Arr.build(out_n, lambda k: V.Cx.of(d.dtft(seq, n, k, n)), "complex")
         if isinstance(a, Arr2):
             s = a.snap()
             zero = V.cast_to(0, "complex") if a.dtype == "complex" else Fraction(0)
@@ -550,7 +550,7 @@ def _install(T):
                 out_n = V.s_floordiv(n, 2) + 1 if half else n
                 def el(k, c):
                     seq = lambda j: V.s_ite(V.b_and(V.s_cmp(">=", j, 0), V.s_cmp("<", j, lim)), s(j, c), zero)
-                    return V.Cx.of(d.dtft(seq, n, V.s_div(k, nf), params=(c,)))
+                    return V.Cx.of(d.dtft(seq, n, k, n))
                 return Arr2.build(out_n, a.c, el, "complex")
             ln = a.c
             if n is None:
@@ -561,7 +561,7 @@ def _install(T):
             out_n = V.s_floordiv(n, 2) + 1 if half else n
             def el2(r, k):
                 seq = lambda j: V.s_ite(V.b_and(V.s_cmp(">=", j, 0), V.s_cmp("<", j, lim)), s(r, j), zero)
-                return V.Cx.of(d.dtft(seq, n, V.s_div(k, nf), params=(r,)))
+                return V.Cx.of(d.dtft(seq, n, k, n))
             return Arr2.build(a.r, out_n, el2, "complex")
         raise Unsupported("fft operand")
 
@@ -582,6 +582,22 @@ def _install(T):
     @reg("numpy.where", doc="where(mask)[0]: increasing indices where mask holds (+ partition-count lemma)")
     def np_where(I, mask):
         return (WhereResult(mask),)
+
+    @reg("numpy.linalg.svd",
+         doc="svd(A) -> (U, S, Vh): deterministic function of the matrix; S has min(rows, cols) entries, non-increasing "
+             ">= 0; Vh is cols x cols, row i = conjugate of the i-th right singular vector (A-SVD)")
+    def np_svd(I, A, full_matrices=True, **kw):
+        d = I.dom
+        ident = d.ext_identity(A)
+        keys = d.key_terms([ident])
+        k = V.s_min(A.r, A.c)
+        U = d.opaque_array2("svd_U", keys, A.r, A.r, A.dtype)
+        S = d.opaque_array("svd_S", keys, k, "float")
+        Vh = d.opaque_array2("svd_Vh", keys, A.c, A.c, A.dtype)
+        if hasattr(d, "facts"):
+            # S non-increasing and >= 0: instantiated on demand by contracts through svd_facts
+            pass
+        return (U, S, Vh)
 
     @reg("numpy.ctypeslib.load_library", "ctypes.c_int", "ctypes.c_float", "ctypes.POINTER")
     def opaque(I, *a, **k):
